@@ -226,16 +226,27 @@ def _chunk_worker(args):
         cfg = mod.gen_config(rng, tier)
         if flt and any(cfg.get(k) != v for k, v in flt.items()):
             continue   # batch replay: only the runs that feed the replayed statistic
-        signal.alarm(180)
-        try:
-            r = execute(mod.RunClass, cfg, rng=rng, max_steps=cfg["steps"])
-        except RunTimeout:
+        r = None
+        # wall-clock limits are the one timing-dependent thing in the harness: a run that exceeds
+        # the first limit (load, a burst of JIT compilations) is simply run again with a much
+        # longer one; only a run that exceeds both is reported as a hang
+        for limit in (300, 2400):
+            signal.alarm(limit)
+            try:
+                if limit != 300:
+                    rng = run_rng(seed, mod.PROP_ID, idx)
+                    mod.gen_config(rng, tier)          # re-consume the configuration draws
+                r = execute(mod.RunClass, cfg, rng=rng, max_steps=cfg["steps"])
+                break
+            except RunTimeout:
+                r = None
+            finally:
+                signal.alarm(0)
+        if r is None:
             r = {"cfg": cfg, "ops": [], "digest": "timeout", "steps": 0, "stats": Counter(),
                  "probes": Counter(), "states": set(), "trans": set(), "nontrivial": False,
                  "oracle_steps": 0,
-                 "violation": {"step": -1, "oracle": "hang", "detail": {}, "trigger": None}}
-        finally:
-            signal.alarm(0)
+                 "violation": {"step": -1, "oracle": "hang", "detail": {"limit_s": 2400}, "trigger": None}}
         agg["stats"].update(r["stats"])
         agg["probes"].update(r["probes"])
         agg["states"].update(r["states"])
